@@ -22,6 +22,12 @@
 
 #define OUT(...) do { printf(__VA_ARGS__); } while (0)
 
+#ifdef VERIF_WRAP_ALLOC
+#include "alloc.h"
+#else
+#define VERIF_UNTRACKED(stmt) do { stmt; } while (0)
+#endif
+
 static int hexval(int c) {
     if (c >= '0' && c <= '9') return c - '0';
     if (c >= 'a' && c <= 'f') return c - 'a' + 10;
@@ -69,9 +75,11 @@ static void outhexc(const char *s) {
 
 static void handle(int argc, char **argv);
 
-/* per-case leak check (property C16): with VERIF_LEAKCHECK=1 in the environment and a sanitized build, LeakSanitizer is
-   asked after every case whether anything allocated so far is unreachable; a leaking case gets ` !LEAK` appended to its
-   observation line.  Executors must therefore release everything they own before returning from handle(). */
+/* per-case leak check (property C16): with VERIF_LEAKCHECK=1 in the environment, a case that ends with memory still
+   allocated that was obtained during the case (through the wrapped allocators, see alloc.h) gets ` !LEAK<n>` appended to
+   its observation line.  Executors must therefore release everything they own before returning from handle().  Without
+   the allocation wrappers LeakSanitizer's conservative scan is used instead (less precise: may attribute a leak to the
+   following case). */
 #if defined(__SANITIZE_ADDRESS__)
 #include <sanitizer/lsan_interface.h>
 #define VERIF_HAVE_LSAN 1
@@ -97,7 +105,7 @@ int main(void) {
     ssize_t n;
     char **argv = NULL;
     size_t argcap = 0;
-    int leakcheck = VERIF_HAVE_LSAN && getenv("VERIF_LEAKCHECK") && atoi(getenv("VERIF_LEAKCHECK"));
+    int leakcheck = getenv("VERIF_LEAKCHECK") && atoi(getenv("VERIF_LEAKCHECK"));
 
     while ((n = getline(&line, &cap, stdin)) > 0) {
         int argc = 0;
@@ -111,9 +119,14 @@ int main(void) {
         if (argc == 0) { printf("bad-op\n"); fflush(stdout); continue; }
         argv[argc] = NULL;
         alarm(VERIF_CASE_SECONDS);       /* a case that does not return is an observation (TIMEOUT), not a hang */
+#ifdef VERIF_WRAP_ALLOC
+        verif_case_begin();
+#endif
         handle(argc, argv);
         alarm(0);
-#if VERIF_HAVE_LSAN
+#ifdef VERIF_WRAP_ALLOC
+        if (leakcheck) { long nleak = verif_case_leaks(); if (nleak) printf(" !LEAK%ld", nleak); }
+#elif VERIF_HAVE_LSAN
         if (leakcheck) { verif_scrub_stack(); if (__lsan_do_recoverable_leak_check()) printf(" !LEAK"); }
 #endif
         printf("\n");
